@@ -267,6 +267,29 @@ def execute(check, tier, seed, budget_s=None, out=sys.stdout):
                 return 2
         # confirm + report violations
         reported = []
+        # witnesses of recorded findings of this property: an open finding's witness is expected to violate,
+        # a fixed finding's witness must pass (a regression is a violation again)
+        for ent in load_known():
+            if ent.get("property") not in own or not ent.get("witness"):
+                continue
+            wpath = os.path.join(VERIF, ent["witness"])
+            if not os.path.exists(wpath):
+                continue
+            wrp = json.load(open(wpath))
+            wrec = runner(sim, wrp["item"])
+            if not wrec.get("ok"):
+                out.write("HARNESS-ERROR %s\n" % wrec.get("error"))
+                return 2
+            n_runs += len(wrec["runs"])
+            hit = [g for r in wrec["runs"] for g in r["findings"] if g["property"] == wrp["property"] and g["class"] == wrp["class"]]
+            if ent.get("status") == "fixed" and hit:
+                reported.append((hit[0], wpath))
+            elif ent.get("status") == "open":
+                if hit:
+                    key = (hit[0]["property"], hit[0]["class"])
+                    knownhits.setdefault(key, (ent, hit[0], wrec, wrec["runs"][0]))
+                else:
+                    out.write("NOTE: witness %s of open finding %s/%s no longer violates\n" % (ent["witness"], ent["property"], ent["class"]))
         for key, (f, rec, run) in sorted(viol.items()):
             rp = {"property": f["property"], "class": f["class"], "detail": f["detail"], "path": f["path"], "seed": seed, "tier": tier,
                   "item": rec["item"], "run": {k: run.get(k) for k in ("plan", "outcome", "log_hash", "sig") if k in run}}
